@@ -138,7 +138,10 @@ impl<Octs> Nsec3<Octs> {
 
     pub fn scan<S: Scanner<Octets = Octs>>(
         scanner: &mut S,
-    ) -> Result<Self, S::Error> {
+    ) -> Result<Self, S::Error>
+    where
+        Octs: AsRef<[u8]>,
+    {
         Ok(Self::new(
             Nsec3HashAlgorithm::scan(scanner)?,
             u8::scan(scanner)?,
@@ -561,7 +564,10 @@ impl<Octs> Nsec3param<Octs> {
 
     pub fn scan<S: Scanner<Octets = Octs>>(
         scanner: &mut S,
-    ) -> Result<Self, S::Error> {
+    ) -> Result<Self, S::Error>
+    where
+        Octs: AsRef<[u8]>,
+    {
         Ok(Self::new(
             Nsec3HashAlgorithm::scan(scanner)?,
             u8::scan(scanner)?,
@@ -935,7 +941,10 @@ impl Nsec3Salt<[u8]> {
 impl<Octs> Nsec3Salt<Octs> {
     pub fn scan<S: Scanner<Octets = Octs>>(
         scanner: &mut S,
-    ) -> Result<Self, S::Error> {
+    ) -> Result<Self, S::Error>
+    where
+        Octs: AsRef<[u8]>,
+    {
         #[derive(Default)]
         struct Converter(Option<Option<base16::SymbolConverter>>);
 
@@ -984,9 +993,10 @@ impl<Octs> Nsec3Salt<Octs> {
             }
         }
 
-        scanner
-            .convert_token(Converter::default())
-            .map(|res| unsafe { Self::from_octets_unchecked(res) })
+        scanner.convert_token(Converter::default()).and_then(|res| {
+            Self::from_octets(res)
+                .map_err(|_| S::Error::custom("long NSEC3 salt"))
+        })
     }
 
     pub fn parse<'a, Src: Octets<Range<'a> = Octs> + ?Sized>(
@@ -1319,10 +1329,16 @@ impl<Octs> OwnerHash<Octs> {
 
     pub fn scan<S: Scanner<Octets = Octs>>(
         scanner: &mut S,
-    ) -> Result<Self, S::Error> {
+    ) -> Result<Self, S::Error>
+    where
+        Octs: AsRef<[u8]>,
+    {
         scanner
             .convert_token(base32::SymbolConverter::new())
-            .map(|octets| unsafe { Self::from_octets_unchecked(octets) })
+            .and_then(|octets| {
+                Self::from_octets(octets)
+                    .map_err(|_| S::Error::custom("long NSEC3 owner hash"))
+            })
     }
 
     /// Converts the hash into the underlying octets.
